@@ -715,7 +715,7 @@ SHRINK_KEEP = ("oracle_cert", "oracle_hc", "save", "load", "diff", "replay", "du
 
 COMMON_ASSUMPTIONS = [
     "third-party behaviour is a parameter of the model and universally quantified in the theorems: PEM/X.509 parsing and SHA-256 (fingerprint, intrinsic names), validate_health_check_config, the string grammars of validate_sozu_id_header / validate_alpn_protocols (verdict passed as data, computed by the real validators at run time)",
-    "identifiers are modelled as numbers whose order is the Rust order on the generator's pools (equal-length cluster/backend/sticky ids, address pool sorted by SocketAddr order); the http front map key (RequestHttpFrontend::to_string) is modelled as the tuple (address, hostname, kind, path, method), of which it is an injective image since 58d6d03 (`;` and the escape character are escaped inside the components; strings carrying them are in the pools and drawn as long as the source still escapes)",
+    "identifiers are modelled as numbers whose order is the Rust order on the generator's pools (equal-length cluster/backend/sticky ids, address pool sorted by SocketAddr order); the http front map key (RequestHttpFrontend::to_string) is modelled as the tuple (address, hostname, kind, path, method), of which it is an injective image since fb79355 (`;` and the escape character are escaped inside the components; strings carrying them are in the pools and drawn as long as the source still escapes)",
     "the opaque payload of an object (every non-identity field: tags, redirect policy, headers, HSTS, TLS versions, answers ...) is compared by equality only; the driver maps the real struct back to the payload index by exhaustive search over the pool, printing POISON when there is none",
     "request_counts (the census) is outside the model and outside the compared state",
 ]
